@@ -44,12 +44,15 @@ class PrecWorld(World):
                        ("DispatchBase", "b0"), ("ReserveBase", "b0"), ("Reposition", link_m)]
         vids = ("v0", "v1", "v2", "h0")
         self.controller_menu = [(g, k[0], vid) + tuple(k[1:]) for g in ("I", "J") for vid in vids for k in per_vehicle]
+        # events "L": G2 speaks a SECOND time in the same step (one generator returning several instructions, possibly for the same
+        # vehicle, as the built-in Dispatcher does for a vehicle of two fleets): the instruction generated last wins
+        self.controller_menu += [("L", k[0], vid) + tuple(k[1:]) for vid in vids for k in (("Idle",), ("DispatchBase", "b0"))]
         self.keep_tod = True
         self._t0 = int(self.starts["init"].sim_time)
 
     @staticmethod
     def slot(ev):
-        return ("g1:" if ev[0] == "I" else "g2:" if ev[0] == "J" else "e:") + ev[0] + (ev[2] if ev[0] in "IJ" else ev[1])
+        return ("g1:" if ev[0] == "I" else "g2:" if ev[0] == "J" else "g2b:" if ev[0] == "L" else "e:") + ev[0] + (ev[2] if ev[0] in "IJL" else ev[1])
 
     def generators(self, instructions):
         return ()
@@ -74,7 +77,7 @@ class PrecWorld(World):
 
         sim = self.pre_step(sim, events)
         g1 = TripPlanner(tuple(mk_instruction(("I",) + e[1:]) for e in events if e[0] == "I"))
-        g2 = ChargePlanner(tuple(mk_instruction(("I",) + e[1:]) for e in events if e[0] == "J"))
+        g2 = ChargePlanner(tuple(mk_instruction(("I",) + e[1:]) for e in events if e[0] == "J") + tuple(mk_instruction(("I",) + e[1:]) for e in events if e[0] == "L"))
         if int(sim.sim_time) == self._t0:
             ctrl = StepSimulation.from_tuple((g1, g2))  # first step of a run: the controller as configured
         else:
